@@ -74,7 +74,7 @@ class _RecordSum(Sum):
         return '(function L [Atom "%s"; p] -> (match %s p with %s -> { %s }) | _ -> failwith "rec %s")' % (
             self.ctor, Tup(*self.tys).dec(), pat, rec, self.coqname)
 WspecT = _RecordSum("wspec", "Json", "mkWS", ["ws_phys", "ws_expand", "ws_vaxes", "ws_default"],
-                    [TensT, List(Nat), List(VspecT), NumT])
+                    [TensT, List(Nat), Option(List(VspecT)), NumT])
 
 GLUE_PREAMBLE = ("let rec d_json (s : sexp) : Json.json = %s s\n"
                  "let rec d_jaxis (s : sexp) : Json.axis = %s s\n"
@@ -270,6 +270,14 @@ def gen_patterned(rng, shape, kinds):
     """a random PatternedTensor with the given virtual shape"""
     import torch
     from fggs.indices import PatternedTensor
+    if len(shape) >= 2 and 0 not in shape and rng.random() < 0.15:
+        # a dense tensor seen through a permutation of its axes (PatternedTensor(t).T and the like)
+        perm = list(range(len(shape))); rng.shuffle(perm)
+        inv = [perm.index(i) for i in range(len(shape))]
+        base_shape = [shape[inv[i]] for i in range(len(shape))]          # permute(perm) of it has `shape`
+        vals = gen.nested(base_shape, lambda: rng.choices(GRID, GRID_P)[0])
+        kinds.add("permuted-dense")
+        return PatternedTensor(torch.tensor(vals, dtype=torch.get_default_dtype())).permute(perm)
     phys = []
     vaxes = []
     for n in shape:
@@ -288,11 +296,55 @@ def gen_patterned(rng, shape, kinds):
     if default != 0.0: kinds.add("default!=0")
     return PatternedTensor(t, tuple(paxes), tuple(vaxes), default)
 
+ID_POOL = ["n%d", "v%d", "Z%d", "%d", "a%d", "%d0", "x", "y", "b", "9", "10", "1", "2"]
+
+def build_hrg_c14(spec, ids, rng, cls):
+    """gen.build_hrg with explicit ids drawn from a shuffled pool of names (ext order and creation order
+    then differ from the str(id) order; digit-only ids interleave with the addresses of implicit ids)"""
+    import fggs
+    b = gen.Built()
+    b.nls = [fggs.NodeLabel(gen.nl_name(i)) for i in range(len(spec["nlabels"]))]
+    b.els = [fggs.EdgeLabel(gen.el_name(spec, i), [b.nls[nl] for nl in e["type"]], is_terminal=e["term"], is_nonterminal=not e["term"])
+             for i, e in enumerate(spec["elabels"])]
+    h = cls(b.els[spec["start"]])
+    for nl in b.nls: h.add_node_label(nl)
+    for el in b.els: h.add_edge_label(el)
+    b.rules = []
+    def names(n):
+        out = []
+        pool = list(ID_POOL); rng.shuffle(pool)
+        k = 0
+        while len(out) < n:
+            for pat in pool:
+                nm = pat % k if "%" in pat else (pat if k == 0 else None)
+                if nm is not None and nm not in out: out.append(nm)
+                if len(out) >= n: break
+            k += 1
+        rng.shuffle(out)
+        return out
+    for r in spec["rules"]:
+        g = fggs.Graph()
+        def expl():
+            return ids == "explicit" or (ids == "mixed" and rng.random() < 0.5)
+        nn = names(len(r["nodes"])); en = names(len(r["edges"]))
+        nodes = [fggs.Node(b.nls[nl], id=nn[k] if expl() else None) for k, nl in enumerate(r["nodes"])]
+        for n in nodes: g.add_node(n)
+        edges = []
+        for k, (el, att) in enumerate(r["edges"]):
+            e = fggs.Edge(b.els[el], [nodes[i] for i in att], id=en[k] if expl() else None)
+            g.add_edge(e); edges.append(e)
+        g.ext = [nodes[i] for i in r["ext"]]
+        rule = fggs.HRGRule(b.els[r["lhs"]], g)
+        h.add_rule(rule)
+        b.rules.append((rule, nodes, edges))
+    b.hrg = h
+    return b
+
 def build_case(rng, spec, is_fgg, ids):
     """build the fggs object for a spec; returns (grammar, info)"""
     import fggs, torch
     info = dict(ids=ids, is_fgg=is_fgg, domains=[], weights=[], kinds=set())
-    b = gen.build_hrg(spec, ids=ids, rng=rng, cls=fggs.FGG if is_fgg else fggs.HRG)
+    b = build_hrg_c14(spec, ids, rng, fggs.FGG if is_fgg else fggs.HRG)
     g = b.hrg
     if not is_fgg:
         return g, info
@@ -309,8 +361,8 @@ def build_case(rng, spec, is_fgg, ids):
     for el, e in enumerate(spec["elabels"]):
         if not e["term"]: continue
         if el in unused:
-            # a terminal that occurs in no rule: binding a factor to it triggers F20 (KeyError); leaving
-            # it unbound shows the silent form (the label disappears)
+            # a terminal that occurs in no rule, with or without a factor (the situation of the repaired
+            # defect F20: FGG.from_hrg used to drop such labels)
             if rng.random() < 0.5: continue
             info["factor_on_unused"] = True
         doms = [g.domains[b.nls[nl].name] for nl in e["type"]]
@@ -493,6 +545,16 @@ def vspec_negate(rng, v, np):
     return ("VDict", (b, vspec_negate(rng, t, np), a))
 
 def gen_wspec(rng, kinds):
+    if rng.random() < 0.12:
+        # no "vaxes" entry: the virtual axes are the physical axes ("expand" ones first)
+        pshape = [rng.choice([1, 2, 3]) for _ in range(rng.choice([0, 1, 2, 2, 3]))]
+        expand = [rng.choice([1, 2, 3]) for _ in range(rng.choice([0, 0, 1, 2]))]
+        phys = gen.nested(pshape, lambda: rng.choices(GRID, GRID_P)[0])
+        default = rng.choice([0.0, 1.0, math.inf])
+        kinds.add("no-vaxes")
+        if expand: kinds.add("expand")
+        j = {"physical": phys, "expand": expand, "default": default}
+        return ("mkWS", (tensw(phys), expand, None, numw(default))), j, expand + pshape
     nd = rng.choice([0, 1, 1, 2, 2, 2, 3])
     shape = [rng.choice([1, 2, 2, 3, 3, 4, 6]) for _ in range(nd)]
     psh = []
@@ -518,7 +580,7 @@ def gen_wspec(rng, kinds):
     if rng.random() < 0.15:
         phys = gen.nested_map(phys, lambda x: int(x) if math.isfinite(x) and x == int(x) else x) if pshape else phys
     default = rng.choice([0.0, 0.0, 1.0, 0.5, math.inf, -math.inf])
-    wire = ("mkWS", (tensw(phys), expand, vs, numw(default)))
+    wire = ("mkWS", (tensw(phys), expand, vs, numw(default)))      # vs: Some list
     j = {"physical": phys, "expand": expand, "vaxes": [vspec_json(v) for v in vs], "default": default}
     return wire, j, shape
 
@@ -768,12 +830,6 @@ def run(tier, seed):
         except Exception as e:
             violations.append(Violation("json_to_weights raised an unexpected exception %r" % (e,), case=dict(spec=j), call="json_to_weights", corr="corr:json_to_weights")); continue
         wvals.append((None, jw(j), obs)); wmetas.append(dict(spec=j, hand=True))
-        # the property: a patterned specification denotes the tensor it describes; "vaxes" is optional in the format
-        if isinstance(j, dict) and "physical" in j and "vaxes" not in j and obs[0] == "WErr":
-            violations.append(Violation("json_to_weights rejects a patterned specification without 'vaxes' (%s)" % obs[1], case=dict(spec=j),
-                                        observed=obs[1], expected="the dense tensor 'physical' (vaxes defaults to the physical axes)",
-                                        corr="C14_patterned_weights", call="fggs.json_to_weights(spec)",
-                                        finding_key="patterned_weights_spec_without_vaxes"))
     lap('weights-impl')
     fut_w = pool.submit(run_model_c14, WCHK, wvals, 16 if quick else 90, seed, "c14w", 8 if quick else 12, 8)
     # PatternedTensors built with fggs.indices -> weights_to_json
@@ -829,12 +885,8 @@ def run(tier, seed):
                                             case=m, corr="C14_second_roundtrip_verbatim", call="fgg_to_json(json_to_fgg(j))"))
         if c == 0: continue
         key = None
-        if c == 4 and m["factor_on_unused_terminal"] and v[3][0] == "ObsFromErr" and v[3][1][1] == "KeyErr":
-            key = "factor_bound_to_terminal_label_used_in_no_rule"
         if c == 4 and m["zero_dim_then_more"] and v[3][0] == "ObsFromErr" and v[3][1][1] == "ValueErr":
             key = "finite_factor_with_empty_domain_followed_by_another_dimension"
-        if c == 5 and m["is_fgg"] and m["unused_labels"]:
-            key = "fgg_edge_label_used_in_no_rule_dropped_by_from_hrg"
         violations.append(Violation(FGG_CODES.get(c, "verdict %d" % c), case=dict(m, verdict=c), observed=v[3][0],
                                     oracle="hrg_iso_b / interp_same_b" if c < 10 else None,
                                     corr="C14_roundtrip_iso / corr:hrg_to_json,json_to_hrg,json_to_fgg (code %d)" % c,
@@ -868,8 +920,6 @@ def run(tier, seed):
         bump("verdicts", "mal:%d" % c)
         if c == 0: continue
         key = None
-        if c == 1 and m["defect"] in ("att-neg-wrap", "ext-neg-wrap"):
-            key = "negative_node_number_within_minus_n_wraps_around"
         violations.append(Violation("out-of-range attachment/external node number not rejected with ValueError (observed: %s)" % (m["observed"],) if c == 1
                                     else "exception kind on malformed input differs from the model's (code %d, observed %s)" % (c, m["observed"]),
                                     case=m, observed=m["observed"], expected="ValueError" if c == 1 else None, oracle="has_oor" if c == 1 else None,
@@ -884,9 +934,7 @@ def run(tier, seed):
                second_roundtrip_byte_compared=byte_checked, sum_product_compared=sp_done, sum_product_pattern_sensitive=len(sp_sensitive),
                sum_product_pattern_sensitive_sample=sp_sensitive[:1],
                streams=dict(grammar=len(vals), weights=len(wvals), patterned_tensors=len(pvals), malformed=len(mvals), sum_product=sp_done),
-               known_finding_predicates=["patterned_weights_spec_without_vaxes", "factor_bound_to_terminal_label_used_in_no_rule",
-                                         "fgg_edge_label_used_in_no_rule_dropped_by_from_hrg", "negative_node_number_within_minus_n_wraps_around",
-                                         "finite_factor_with_empty_domain_followed_by_another_dimension"],
+               known_finding_predicates=["finite_factor_with_empty_domain_followed_by_another_dimension"],
                open_items=OPEN_ITEMS)
     return cov, violations
 
@@ -894,7 +942,7 @@ OPEN_ITEMS = [
     "completeness of the oracle hrg_iso_b is not proved (only soundness, C14_iso_oracle_sound): a rejected bijection does not by itself prove non-isomorphism; the harness first tries the bijection read off the code, then searches for any other one before handing a witness to the checker",
     "weights_to_json is modelled by its result (dense nested list of the denotation); PatternedTensor.__iter__/dim_to_dense are not modelled here (C06)",
     "'hence the same sum-product' presupposes that sum_product depends only on the denoted tensors (C06/C07); the check compares the round-tripped grammar with the densified original (always equal so far) and only counts/prints a NOTE where the patterned original differs (SumAxis(0, e, 0) vs e in unify)",
-    "C14_fgg_roundtrip excludes every empty dimension (guard factor_wf), although only an empty dimension followed by another one fails (F21)",
+    "C14_fgg_roundtrip keeps the guard factor_wf 'no empty dimension' because of the unrepaired defect F21 (the guard excludes every empty dimension, although only an empty dimension followed by another one fails)",
     "json.dumps acceptance is by construction of the model's json type (null/bool/int/float incl. infinities/str/list/dict with str keys); NaN weights are outside the model",
     "rounding of weight literals that are not exactly representable in the default dtype (float32) is not modelled; the generators use dyadic rationals",
 ]
@@ -942,7 +990,7 @@ def replay(path):
 
 MANIFEST = dict(
     level="proof",
-    text="Coq theorems about a Gallina model that follows fggs/formats.py statement by statement: json_to_hrg(hrg_to_json g) is isomorphic to g for every well-formed g and every str() of the implicit ids (C14_roundtrip_iso); at the FGG level, through FGG.from_hrg, with equal domains and factors equal as dense tensors (C14_fgg_roundtrip, under guards excluding the defects F20/F21); with explicit ids the second round trip reproduces the JSON (C14_second_roundtrip, _verbatim); out-of-range node numbers are rejected with ValueError except negative ones within -n..-1, which wrap (refutation witness + guarded theorem); the strided to_dense of json_to_weights' result is the tensor the patterned specification denotes (C14_patterned_weights). The model is tied to /repo on every run by comparing JSON, grammars, dense weights and exception kinds exactly, and every implementation output is judged by the extracted oracles hrg_iso_b / spec_dense / has_oor (hrg_iso_b sound by C14_iso_oracle_sound; spec_dense is the definition C14_patterned_weights equates the model with).",
-    note="Trusted: Coq kernel + vm_compute, extraction (ExtrOcamlBasic) cross-checked against vm_compute on a sample and on the non-zero verdicts, the Python harness mapping live fggs objects to model values. weights_to_json is modelled by its dense result; json.dumps/loads run but are not modelled. Defects F10, F19, F20 (two forms) and F21 (new) of /repo are reported as KNOWN-FINDING with refutation witnesses in Coq.",
+    text="Coq theorems about a Gallina model that follows fggs/formats.py statement by statement (as repaired by 2f3a5c1, fe13a06, 450bcaa): json_to_hrg(hrg_to_json g) is isomorphic to g for every well-formed g and every str() of the implicit ids (C14_roundtrip_iso); at the FGG level, through FGG.from_hrg, with equal domains and factors equal as dense tensors (C14_fgg_roundtrip; the only guard left, 'no empty dimension', is the unrepaired defect F21, refuted without it); with explicit ids the second round trip reproduces the JSON (C14_second_roundtrip, _verbatim); every attachment/external node number outside 0..n-1, negative ones included, is rejected with ValueError (C14_out_of_range_rejected, C14_out_of_range_is_ValueError); the strided to_dense of json_to_weights' result is the tensor the patterned specification denotes, with or without a 'vaxes' entry (C14_patterned_weights). The model is tied to /repo on every run by comparing JSON, grammars, dense weights and exception kinds exactly, and every implementation output is judged by the extracted oracles hrg_iso_b / spec_dense / has_oor (hrg_iso_b sound by C14_iso_oracle_sound; spec_dense is the definition C14_patterned_weights equates the model with).",
+    note="Trusted: Coq kernel + vm_compute, extraction (ExtrOcamlBasic) cross-checked against vm_compute on a sample and on the non-zero verdicts, the Python harness mapping live fggs objects to model values. weights_to_json is modelled by its dense result; json.dumps/loads run but are not modelled. Defects F10, F19, F20 found by this check were repaired in /repo (known_findings.json: fixed); F21 (new, not repaired) is reported as KNOWN-FINDING with a refutation witness in Coq.",
     technique="Coq proof (model + theorems) + model/implementation correspondence with verified oracles",
     design_ref="DESIGN.md section 6, C14")
